@@ -4,15 +4,19 @@
    family "expr"  - ALL expressions over the two integer variables a, b and the literals 0 1 2 -3 with the operator set
                     + - * / %  == != < <= > >=  && || ! unary-minus of depth <= 2 in the one-sided shapes
                     op(depth1, leaf), op(leaf, depth1), cmp(depth1, leaf), !(depth1), -(depth1) and depth 1 itself
-                    (about 18 000), plus the two-sided shapes op(depth1, depth1) and (cmp && / || cmp) thinned by a stride.
-                    Expressions whose constant sub-expressions divide by zero are left out (Go rejects them at compile time).
-                    Every expression is the body `return e` of one function; ExprPerProg functions make one program.
+                    (about 18 000), the two-sided shapes op(depth1, depth1) and (cmp && / || cmp) thinned by a stride,
+                    ALL && / || combinations of depth <= 2 over five operands WITH AND WITHOUT SIDE EFFECTS (short circuit:
+                    the package-level counter shows which operands ran), and op= / ++ / -- with every operator on every kind of
+                    lvalue (local, parameter, package-level variable, slice element, struct field, field through a pointer,
+                    map entry).  Expressions whose constant sub-expressions divide by zero are left out (Go rejects them at
+                    compile time).  Every expression is the body of one function; ExprPerProg functions make one program.
    family "skel"  - ALL statement skeletons of depth <= 2: 15 outer control structures (if / else-if / if with init, the three
                     for forms, range with and without value, expression / tagless / fallthrough / early-default switch,
-                    labelled nested loops, switch inside a labelled loop, deferred call) whose body slots hold every filler that
-                    is legal there: marker assignments, break / continue (labelled where a label is in scope), early return,
-                    panic, and every depth-1 skeleton with marker bodies.  Markers s = (s*3 + k) % 1000003 make the executed path
-                    visible in the result.
+                    labelled nested loops, switch inside a labelled loop) whose body slots hold every filler that is legal
+                    there: marker assignments, break / continue (labelled where a label is in scope), early return, panic, and
+                    every depth-1 skeleton with marker bodies; every third one with a NAMED result and a bare return; and each
+                    outer structure once more under a deferred call (plain / recovering) whose effect must not be visible in
+                    the returned value.  Markers s = (s*3 + k) % 1000003 make the executed path visible in the result.
 
    A case is printed after @@CASE@@ as [id, fam, prog, runs]: prog is the abstract syntax tree (GoSubset.tla), runs the
    argument vectors with GoSem's verdict.  Thin = n keeps every n-th expression (quick tier); Chunks spreads the work over
@@ -32,6 +36,29 @@ NC == Len(COps) * NL * NL
 
 D1I(i) == Bin(AOps[i \div (NL * NL) + 1], I, Leaves[(i % (NL * NL)) \div NL + 1], Leaves[(i % NL) + 1])
 D1B(i) == Bin(COps[i \div (NL * NL) + 1], I, Leaves[(i % (NL * NL)) \div NL + 1], Leaves[(i % NL) + 1])
+
+\* value semantics of struct arguments / results, reference semantics of pointers, slices and maps (r: a right operand)
+VsHelpers == <<
+    Func("sv", <<Prm("s", "S"), Prm("x", I)>>, <<Prm("", I)>>, FALSE, <<OpAsg("+", I, Fld("S", Var("s"), 1), Var("x")), Asg(Fld("S", Var("s"), 2), IntL(9)), Ret(<<Bin("+", I, Fld("S", Var("s"), 1), Fld("S", Var("s"), 2))>>)>>, FALSE),
+    Func("sp", <<Prm("p", "pS"), Prm("x", I)>>, <<Prm("", I)>>, FALSE, <<OpAsg("+", I, Fld("pS", Var("p"), 1), Var("x")), Ret(<<Fld("pS", Var("p"), 1)>>)>>, FALSE),
+    Func("sl", <<Prm("l", "ints"), Prm("x", I)>>, <<>>, FALSE, <<Asg(Ix("ints", Var("l"), IntL(0)), Var("x"))>>, FALSE),
+    Func("sm", <<Prm("m", "mii"), Prm("x", I)>>, <<>>, FALSE, <<Asg(Ix("mii", Var("m"), IntL(5)), Var("x"))>>, FALSE),
+    Func("mk", <<Prm("x", I)>>, <<Prm("", "S")>>, FALSE, <<Ret(<<Mk("S", <<Var("x"), IntL(1)>>)>>)>>, FALSE),
+    Func("two", <<Prm("s", "S"), Prm("t", "S")>>, <<Prm("", I)>>, FALSE, <<Asg(Fld("S", Var("s"), 1), IntL(50)), Ret(<<Bin("+", I, Fld("S", Var("s"), 1), Fld("S", Var("t"), 1))>>)>>, FALSE),
+    Func("S.inc", <<Prm("p", "pS"), Prm("x", I)>>, <<>>, FALSE, <<OpAsg("+", I, Fld("pS", Var("p"), 2), Var("x"))>>, FALSE)>>
+VA(v) == Fld("S", Var(v), 1)
+Mix(x, y) == Bin("+", I, Bin("*", I, x, IntL(100)), y)
+VsBody(kind, r) ==
+    CASE kind = 1 -> <<Decl("v", "S", Mk("S", <<va, IntL(2)>>)), Decl("q", I, CallE("sv", <<Var("v"), r>>)), Ret(<<Mix(Var("q"), Bin("+", I, VA("v"), Fld("S", Var("v"), 2)))>>)>>
+      [] kind = 2 -> <<Decl("v", "S", Mk("S", <<va, IntL(2)>>)), Decl("q", I, CallE("two", <<Var("v"), Var("v")>>)), Ret(<<Mix(Var("q"), VA("v"))>>)>>
+      [] kind = 3 -> <<Decl("v", "S", CallE("mk", <<va>>)), Decl("w", "S", CallE("mk", <<va>>)), Asg(VA("v"), r), Ret(<<Mix(VA("v"), VA("w"))>>)>>
+      [] kind = 4 -> <<Decl("p", "pS", Mk("pS", <<va, IntL(2)>>)), Decl("q", I, CallE("sp", <<Var("p"), r>>)), Ret(<<Mix(Var("q"), Fld("pS", Var("p"), 1))>>)>>
+      [] kind = 5 -> <<Decl("l", "ints", Mk("ints", <<va, IntL(2)>>)), CallS("sl", <<Var("l"), r>>), Ret(<<Mix(Ix("ints", Var("l"), IntL(0)), LenE("ints", Var("l")))>>)>>
+      [] kind = 6 -> <<Decl("m", "mii", Mk("mii", << <<IntL(1), va>> >>)), CallS("sm", <<Var("m"), r>>), Ret(<<Mix(Ix("mii", Var("m"), IntL(5)), LenE("mii", Var("m")))>>)>>
+      [] kind = 7 -> <<Decl("p", "pS", Mk("pS", <<va, IntL(2)>>)), Decl("o", "pS", Var("p")), CallS("S.inc", <<Var("o"), r>>), Ret(<<Mix(Fld("pS", Var("p"), 2), Fld("pS", Var("o"), 1))>>)>>
+      [] kind = 8 -> <<Decl("v", "S", Mk("S", <<va, IntL(2)>>)), Decl("q", I, Bin("+", I, CallE("sv", <<Var("v"), r>>), CallE("sv", <<Var("v"), IntL(1)>>))), Ret(<<Mix(Var("q"), VA("v"))>>)>>
+      [] kind = 9 -> <<Decl("l", "ints", Mk("ints", <<va, IntL(2)>>)), Decl("k", "ints", Var("l")), Asg(Ix("ints", Var("k"), IntL(1)), r), Ret(<<Mix(Ix("ints", Var("l"), IntL(1)), Ix("ints", Var("k"), IntL(0)))>>)>>
+      [] kind = 10 -> <<Decl("v", "S", Mk("S", <<va, IntL(2)>>)), Asg(Var("gv"), CallE("sv", <<Var("v"), r>>)), OpAsg("+", I, VA("v"), IntL(1)), Ret(<<Mix(Var("gv"), VA("v"))>>)>>
 
 \* operands of && || with and without side effects: bump(x) adds x to the package-level cnt and answers x > 1
 Atoms == <<Bin(">", I, va, IntL(0)), Bin(">", I, vb, IntL(0)), CallE("bump", <<IntL(1)>>), CallE("bump", <<IntL(2)>>), Un("!", CallE("bump", <<IntL(4)>>))>>
@@ -64,7 +91,8 @@ Fam == <<
   [n |-> 2 * NAt * NAt, t |-> "sc"],             \* 10 X op Y          operands with side effects: short circuit
   [n |-> 4 * NAt * NAt * NAt, t |-> "sc"],       \* 11 (X op Y) op Z
   [n |-> 4 * NAt * NAt * NAt, t |-> "sc"],       \* 12 X op (Y op Z)
-  [n |-> 7 * 7 * 3, t |-> "oa"]                  \* 13 op= / ++ / -- on every kind of lvalue
+  [n |-> 7 * 7 * 3, t |-> "oa"],                 \* 13 op= / ++ / -- on every kind of lvalue
+  [n |-> 10 * 3, t |-> "vs"]                     \* 14 value / reference semantics of arguments and results
 >>
 ExprOf(f, i) ==
     CASE f = 1 -> D1I(i)
@@ -83,6 +111,7 @@ ExprOf(f, i) ==
       [] f = 12 -> LET o == i \div (NAt * NAt * NAt)  r == i % (NAt * NAt * NAt) IN
                    And2(o % 2, Atoms[r \div (NAt * NAt) + 1], And2(o \div 2, Atoms[(r % (NAt * NAt)) \div NAt + 1], Atoms[(r % NAt) + 1]))
       [] f = 13 -> [k |-> "oa", kind |-> i \div 21 + 1, op |-> (i % 21) \div 3 + 1, r |-> OaRhs[(i % 3) + 1]]
+      [] f = 14 -> [k |-> "vs", kind |-> i \div 3 + 1, r |-> OaRhs[(i % 3) + 1]]
 
 \* Go evaluates constant sub-expressions at compile time and rejects a constant division by zero
 RECURSIVE HasVar(_), ConstOk(_)
@@ -91,6 +120,7 @@ ConstOk(e) == CASE e.k = "bin" -> /\ ConstOk(e.l) /\ ConstOk(e.r)
                                   /\ (e.op \in {"/", "%"} /\ ~HasVar(e.r)) => EvalE(<<>>, e.r, <<>>, St0).v # 0
                 [] e.k = "un" -> ConstOk(e.e)
                 [] e.k = "oa" -> ~(e.op \in {4, 5} /\ e.r.k = "lit" /\ e.r.v = 0)
+                [] e.k = "vs" -> TRUE
                 [] OTHER -> TRUE
 
 ArgsAB == << <<0, 0>>, <<1, -1>>, <<-1, 1>>, <<2, 3>>, <<-7, 2>>, <<7, -2>>, <<5, 5>>, <<-7, -3>> >>
@@ -117,13 +147,14 @@ ExprProg(p) ==
         BodyOf(it) == CASE it.t = "sc" -> <<Decl("t", I, IntL(0)), If(it.e, <<Asg(Var("t"), IntL(1))>>, <<>>),
                                            Ret(<<Bin("+", I, Var("t"), Bin("*", I, Var("cnt"), IntL(10)))>>)>>
                         [] it.t = "oa" -> OaBody(it.e.kind, it.e.op, it.e.r)
+                        [] it.t = "vs" -> VsBody(it.e.kind, it.e.r)
                         [] OTHER -> <<Ret(<<it.e>>)>>
-        ResOf(it) == IF it.t \in {"sc", "oa"} THEN I ELSE it.t
-        state == \E j \in 1..Len(ok) : ok[j].t \in {"sc", "oa"}
+        ResOf(it) == IF it.t \in {"sc", "oa", "vs"} THEN I ELSE it.t
+        state == \E j \in 1..Len(ok) : ok[j].t \in {"sc", "oa", "vs"}
     IN [prog |-> Prog(IF state THEN <<Glob("cnt", I, IntL(0)), Glob("gv", I, IntL(0))>> ELSE <<>>,
                       [j \in 1..Len(ok) |-> Func(FnName(ok[j].no), Pab, <<Prm("", ResOf(ok[j]))>>, FALSE, BodyOf(ok[j]), TRUE)]
                       \o (IF state THEN <<Func("bump", <<Prm("x", I)>>, <<Prm("", "bool")>>, FALSE,
-                                               <<OpAsg("+", I, Var("cnt"), Var("x")), Ret(<<Bin(">", I, Var("x"), IntL(1))>>)>>, FALSE)>> ELSE <<>>)),
+                                               <<OpAsg("+", I, Var("cnt"), Var("x")), Ret(<<Bin(">", I, Var("x"), IntL(1))>>)>>, FALSE)>> \o VsHelpers ELSE <<>>)),
         fns |-> [j \in 1..Len(ok) |-> FnName(ok[j].no)]]
 
 RunsOf(prog, fns, argvs) ==
